@@ -291,3 +291,21 @@ Proof.
   rewrite Hr. cbn [fst snd]. split; [reflexivity|].
   destruct (completes _ _ _ Hg _ _ Hs) as [_ Ht]. exact (Ht Hn).
 Qed.
+
+(* the assembler is blocked in [<-r.done] only while the consumer holds the batch it was given:
+   between two calls (the next Read or Close acknowledges it first thing) or already at the
+   acknowledging send *)
+Theorem assembler_waits_only_for_reader : forall le hist prog n s,
+  steps (step (fixed le)) n (init (fixed le) hist prog) s -> is_wait (ap s) = true ->
+  match pc (cs s) with
+  | CReadSend _ _ | CCloseAck | CCloseSend => True
+  | CIdle => first (cs s) = false /\ closed (cs s) = false
+  | _ => False
+  end.
+Proof.
+  intros le hist prog n s Hs Hw. destruct (reach_hinv _ _ _ _ _ Hs) as [_ [_ [_ Hc]]].
+  unfold hinv_c in Hc. rewrite Hw in Hc. destruct (pc (cs s)); auto.
+  - unfold idle_cond in Hc. destruct (first (cs s)), (closed (cs s)); cbn in Hc; auto; destruct Hc; discriminate.
+  - destruct Hc; discriminate.
+  - destruct Hc; discriminate.
+Qed.
